@@ -692,7 +692,7 @@ fn eval_raw_duplicates(c: &Case, t: &mut Tally) -> Viol {
 
 fn redacted_because(v: u8) -> Value {
     let mut ev = json!({
-        "type": "m.room.redaction", "event_id": "$redaction:example.org", "sender": ALICE,
+        "type": "m.room.redaction", "event_id": "$redaction:example.org", "sender": "@moderator:example.org",
         "origin_server_ts": TS + 1, "content": {"reason": "spam"},
     });
     if v >= 11 {
